@@ -1047,7 +1047,12 @@ func (db *DB) reWriteData(pendingMergeEntries []*Entry) error {
 			return err
 		}
 	}
-	tx.Commit()
+	if err := tx.Commit(); err != nil {
+		// the records were not (all) written: the old segment must stay
+		tx.Rollback()
+		db.isMerging = false
+		return err
+	}
 	return nil
 }
 
